@@ -123,6 +123,11 @@ theorem lazy_inits_single_critical_section :
 theorem lazy_guards_as_classified : lazyGuardsAsClassified Generated.lazyGuards = true := by
   decide +kernel
 
+/-- Table obligation: package graphql has no process-wide mutable map / slice besides the two read-only configuration
+lists. -/
+theorem no_new_shared_package_state : (Generated.packageVars == expectedPackageVars) = true := by
+  decide +kernel
+
 /-- Why the shape matters: with the critical section split in two and the slot claimed by a placeholder in between, all
 accesses are still under the mutex, yet there is a schedule of two threads in which the second one finishes with the
 placeholder instead of `init`. -/
